@@ -17,6 +17,7 @@ type monOpts struct {
 	SnapZC       [2]bool // SNAP: endpoint i advertised zero checksum out of band
 	SnapIL       [2]bool
 	Snap         bool
+	SnapARwnd    [2]uint32 // SNAP: receive window endpoint i advertised in its token (0: unknown)
 }
 
 func allMonitors() monOpts {
@@ -135,6 +136,13 @@ func runWireMonitors(m *Sim, x *Exec, o monOpts) *wireFacts {
 	var ss [2]*sstate
 	for i := range ss {
 		ss[i] = &sstate{outstanding: map[uint32]int{}}
+	}
+	if o.Snap {
+		for i := range ss {
+			if w := o.SnapARwnd[1-i]; w != 0 {
+				ss[i].lastARwnd, ss[i].haveARwnd = w, true
+			}
+		}
 	}
 	ilInit, ilAck := false, false
 	haveInitPkt, haveAckPkt := false, false
@@ -258,6 +266,10 @@ func runWireMonitors(m *Sim, x *Exec, o monOpts) *wireFacts {
 					r := rs[rcv]
 					if !r.haveBase {
 						r.base, r.haveBase = c.InitTSN-1, true
+					}
+					// the window of the first flight: what the peer advertised in the handshake
+					if st := ss[rcv]; !st.haveAck && !st.haveARwnd {
+						st.lastARwnd, st.haveARwnd = c.ARwnd, true
 					}
 				case wDATA, wIDATA:
 					r := rs[rcv]
